@@ -8,6 +8,8 @@ pub enum DV {
     Str(String),
     Int(i128),
     Bool(bool),
+    /// YAML `~` / `null`, JSON `null`; TOML has no null (callers substitute)
+    Null,
     Seq(Vec<DV>),
     Map(Vec<(String, DV)>),
 }
@@ -109,6 +111,7 @@ pub fn to_json(v: &DV) -> String {
         DV::Str(s) => quote(s),
         DV::Int(i) => i.to_string(),
         DV::Bool(b) => b.to_string(),
+        DV::Null => "null".to_string(),
         DV::Seq(s) => format!("[{}]", s.iter().map(to_json).collect::<Vec<_>>().join(", ")),
         DV::Map(m) => format!("{{{}}}", m.iter().map(|(k, v)| format!("{}: {}", quote(k), to_json(v))).collect::<Vec<_>>().join(", ")),
     }
@@ -136,6 +139,7 @@ fn yaml_scalar(v: &DV, style: u64) -> String {
         }
         DV::Int(i) => i.to_string(),
         DV::Bool(b) => b.to_string(),
+        DV::Null => if style & 1 == 0 { "~".to_string() } else { "null".to_string() },
         _ => unreachable!(),
     }
 }
@@ -208,6 +212,7 @@ fn toml_inline(v: &DV) -> String {
         DV::Str(s) => quote(s),
         DV::Int(i) => i.to_string(),
         DV::Bool(b) => b.to_string(),
+        DV::Null => "\"\"".to_string(),
         DV::Seq(s) => format!("[{}]", s.iter().map(toml_inline).collect::<Vec<_>>().join(", ")),
         DV::Map(m) => format!("{{ {} }}", m.iter().map(|(k, x)| format!("{} = {}", toml_key(k), toml_inline(x))).collect::<Vec<_>>().join(", ")),
     }
